@@ -209,7 +209,20 @@ def inline_temps(f):
                     if not (isinstance(s, ast.Assign) and len(s.targets) == 1 and isinstance(s.targets[0], ast.Name)):
                         continue
                     t = s.targets[0].id
-                    if t not in locs or t in nested or len(stores.get(t, [])) != 1 or len(loads.get(t, [])) != 1:
+                    if t not in locs or t in nested:
+                        continue
+                    if len(stores.get(t, [])) != 1 or len(loads.get(t, [])) != 1:
+                        # `t = E` immediately followed by `return <expr using t once>`: t is dead afterwards
+                        # whatever other definitions it has elsewhere
+                        nxt = blk[i + 1] if i + 1 < len(blk) else None
+                        if isinstance(nxt, (ast.Return, ast.Raise)) and sum(isinstance(x, ast.Name) and x.id == t for x in ast.walk(nxt)) == 1 and not any(isinstance(x, ast.Name) and x.id == t for x in ast.walk(s.value)):
+                            sub = _Subst(t, s.value)
+                            blk[i + 1] = sub.visit(nxt)
+                            if sub.done == 1:
+                                del blk[i]
+                                total += 1
+                                changed = True
+                                break
                         continue
                     use = loads[t][0]
                     E = s.value
@@ -259,11 +272,43 @@ def _abstract(node, mapping, me=None):
     """text of node with local names replaced via mapping (name -> token)"""
 
     class T(ast.NodeTransformer):
+        shadow = ()
+
         def visit_Name(self, n):
+            if n.id in self.shadow:
+                return ast.Name("C_", n.ctx)  # comprehension / lambda variable: its own scope
             if n.id == me:
                 return ast.Name("SELF__", n.ctx)
             if n.id in mapping:
                 return ast.Name(mapping[n.id], n.ctx)
+            return n
+
+        def _comp(self, n):
+            bound = {x.id for g in n.generators for x in ast.walk(g.target) if isinstance(x, ast.Name)}
+            first = n.generators[0].iter
+            n.generators[0].iter = self.visit(first)
+            old, self.shadow = self.shadow, tuple(set(self.shadow) | bound)
+            for i, g in enumerate(n.generators):
+                g.target = self.visit(g.target)
+                if i:
+                    g.iter = self.visit(g.iter)
+                g.ifs = [self.visit(x) for x in g.ifs]
+            if isinstance(n, ast.DictComp):
+                n.key, n.value = self.visit(n.key), self.visit(n.value)
+            else:
+                n.elt = self.visit(n.elt)
+            self.shadow = old
+            return n
+
+        visit_ListComp = visit_SetComp = visit_GeneratorExp = visit_DictComp = _comp
+
+        def visit_Lambda(self, n):
+            bound = {a.arg for a in n.args.args + n.args.kwonlyargs}
+            old, self.shadow = self.shadow, tuple(set(self.shadow) | bound)
+            n.body = self.visit(n.body)
+            self.shadow = old
+            for a in n.args.args + n.args.kwonlyargs:
+                a.arg = "C_"
             return n
 
         def visit_FunctionDef(self, n):
@@ -297,6 +342,39 @@ def _stmt_headers(f):
     return out
 
 
+def _free_names(e):
+    """names read/written in the enclosing function scope (comprehension and lambda variables excluded)"""
+    out = set()
+
+    def walk(n, shadow):
+        if isinstance(n, ast.Name):
+            if n.id not in shadow:
+                out.add(n.id)
+            return
+        if isinstance(n, (ast.ListComp, ast.SetComp, ast.GeneratorExp, ast.DictComp)):
+            bound = {x.id for g in n.generators for x in ast.walk(g.target) if isinstance(x, ast.Name)}
+            walk(n.generators[0].iter, shadow)
+            sh = shadow | bound
+            for i, g in enumerate(n.generators):
+                if i:
+                    walk(g.iter, sh)
+                for x in g.ifs:
+                    walk(x, sh)
+            for x in ([n.key, n.value] if isinstance(n, ast.DictComp) else [n.elt]):
+                walk(x, sh)
+            return
+        if isinstance(n, ast.Lambda):
+            walk(n.body, shadow | {a.arg for a in n.args.args + n.args.kwonlyargs})
+            return
+        if isinstance(n, (ast.FunctionDef, ast.AsyncFunctionDef, ast.ClassDef)):
+            return
+        for c in ast.iter_child_nodes(n):
+            walk(c, shadow)
+
+    walk(e, frozenset())
+    return out
+
+
 def signatures(f, rounds=2):
     locs = local_names(f)
     if not locs:
@@ -304,7 +382,7 @@ def signatures(f, rounds=2):
     heads = _stmt_headers(f)
     involve = {v: [] for v in locs}
     for h in heads:
-        for v in _names(h) & locs:
+        for v in _free_names(h) & locs:
             involve[v].append(h)
     mapping = {v: "L_" for v in locs}
     sig = {}
@@ -341,20 +419,45 @@ def recover_names(f, modname, qual, stats=None):
             ren[cs[0]] = rs[0]
     if not ren:
         return {}
-    # do not rename when a nested scope binds the same name itself
-    for n in ast.walk(f):
-        if n is not f and isinstance(n, (ast.FunctionDef, ast.AsyncFunctionDef, ast.Lambda)):
-            bound = param_names(n) if not isinstance(n, ast.Lambda) else {a.arg for a in n.args.args}
-            if not isinstance(n, ast.Lambda):
-                bound |= local_names(n)
-            for k in list(ren):
-                if k in bound or ren[k] in bound:
-                    del ren[k]
-    for n in ast.walk(f):
-        if isinstance(n, ast.Name) and n.id in ren:
-            n.id = ren[n.id]
-        elif isinstance(n, ast.ExceptHandler) and n.name in ren:
-            n.name = ren[n.name]
+    def bound_in(n):
+        b = param_names(n) if not isinstance(n, ast.Lambda) else {a.arg for a in n.args.args + n.args.kwonlyargs}
+        if not isinstance(n, ast.Lambda):
+            b |= local_names(n)
+        return b
+
+    def nested(n):
+        return [x for x in own(n) if isinstance(x, (ast.FunctionDef, ast.AsyncFunctionDef, ast.Lambda))]
+
+    # a nested scope in which the old name is free must not bind the new name itself
+    def conflicts(scope, k):
+        for n in nested(scope):
+            b = bound_in(n)
+            if k in b:
+                continue  # shadowed: the nested scope has its own variable of that name
+            if not any(isinstance(x, ast.Name) and x.id == k for x in ast.walk(n)):
+                continue  # the nested scope never reads the variable
+            if ren[k] in b or conflicts(n, k):
+                return True
+        return False
+
+    for k in list(ren):
+        if conflicts(f, k):
+            del ren[k]
+
+    def apply(scope, active):
+        for n in own(scope):
+            if isinstance(n, ast.Name) and n.id in active:
+                n.id = active[n.id]
+            elif isinstance(n, ast.ExceptHandler) and n.name in active:
+                n.name = active[n.name]
+        for n in nested(scope):
+            b = bound_in(n)
+            inner = {k: v for k, v in active.items() if k not in b}
+            if inner:
+                apply(n, inner)
+
+    if ren:
+        apply(f, ren)
     return ren
 
 
